@@ -53,6 +53,11 @@ func Disconnect(dur uint16) []byte {
 	return refsn.Pkt{Type: refsn.DISCONNECT, Duration: dur}.Encode()
 }
 
+// DisconnectField: DISCONNECT carrying the optional Duration field whatever its value (04 18 00 00 for 0).
+func DisconnectField(dur uint16) []byte {
+	return refsn.Pkt{Type: refsn.DISCONNECT, Duration: dur, HasDur: true}.Encode()
+}
+
 // ShortID encodes a 2-byte topic name as a short topic id.
 func ShortID(name string) uint16 { return uint16(name[0])<<8 | uint16(name[1]) }
 
